@@ -204,7 +204,8 @@ class Reply(object):
 
     @message.setter
     def message(self, value):
-        if value:
+        # Only 2xx, 4xx and 5xx replies carry an enhanced status code.
+        if value and not (self._code and self._code[0] in ('1', '3')):
             match = message_esc_pattern.match(value)
             if match:
                 self._message = value[match.end(0):]
